@@ -1,7 +1,18 @@
 """C13 runner: drives the four public entry points of annet.annlib.jsontools.
 
-stdin : JSON list of cases {"kind": "frag"|"filter"|"patch"|"apply", ...}
+stdin : JSON list of cases {"kind": "frag"|"filter"|"patch"|"apply"|"session", ...}
 stdout: one JSON list with the real implementation's outputs (exceptions -> {"exc": class}).
+
+Every kind also reports "mutated": the list of [function, argument] pairs for which an object handed to
+the function no longer serialises to the text it had before the call (json.dumps without sort_keys: key
+order, bool/int and container kinds included).  The arguments are private deep copies, the reference
+texts are taken from the case itself.
+
+kind "session" is the operation sequence the API performs on ONE old object (annet/api/__init__.py:
+_patch_worker / Deployer, annet/generators/result.py: new_json_fragment_files):
+    doc = old; for (f, acl) in steps: doc = apply_json_fragment(doc, f, acl)      # chaining
+    patch = make_patch(old, doc)                                                   # the SAME old object
+    applied = apply_patch(serialised ORIGINAL old, serialised patch)               # what the device holds
 """
 import copy
 import json
@@ -19,25 +30,75 @@ def outcome(fn):
         return {"exc": type(e).__name__}
 
 
+def text(v):
+    try:
+        return json.dumps(v)
+    except Exception as e:  # noqa  (a foreign object was stored into a caller's document)
+        return "unserialisable:" + type(e).__name__
+
+
+class Watch:
+    """objects handed to the implementation, each with the text it must keep"""
+
+    def __init__(self):
+        self.items = []         # (name, object, text)
+        self.mutated = []
+
+    def add(self, name, obj, ref=None):
+        self.items.append((name, obj, text(obj) if ref is None else text(ref)))
+        return obj
+
+    def check(self, fn):
+        """after a call of fn: which watched objects changed (reported once, then re-based)"""
+        for i, (name, obj, t) in enumerate(self.items):
+            now = text(obj)
+            if now != t:
+                self.mutated.append([fn, name])
+                self.items[i] = (name, obj, now)
+
+
 def frag(c):
     old, f, acl = c["old"], c["f"], c["acl"]
-    r = outcome(lambda: jsontools.apply_json_fragment(copy.deepcopy(old), copy.deepcopy(f), list(acl)))
+    w = Watch()
+    a_old, a_f, a_acl = w.add("old", copy.deepcopy(old), old), w.add("fragment", copy.deepcopy(f), f), w.add("acl", list(acl), acl)
+    r = outcome(lambda: jsontools.apply_json_fragment(a_old, a_f, a_acl))
+    w.check("apply_json_fragment")
     out = {"r": r}
     if "ok" in r:
-        out["rr"] = outcome(lambda: jsontools.apply_json_fragment(copy.deepcopy(r["ok"]), copy.deepcopy(f), list(acl)))
+        ref = copy.deepcopy(r["ok"])
+        b_old, b_f, b_acl = w.add("old(2nd merge)", copy.deepcopy(ref), ref), w.add("fragment(2nd merge)", copy.deepcopy(f), f), list(acl)
+        out["rr"] = outcome(lambda: jsontools.apply_json_fragment(b_old, b_f, b_acl))
+        w.check("apply_json_fragment")
     else:
         out["rr"] = {"exc": "skipped"}
+    out["mutated"] = w.mutated
     return out
 
 
 def filt(c):
-    return {"r": outcome(lambda: jsontools.apply_acl_filters(copy.deepcopy(c["d"]), list(c["filters"])))}
+    w = Watch()
+    d, fl = w.add("content", copy.deepcopy(c["d"]), c["d"]), w.add("filters", list(c["filters"]), c["filters"])
+    r = outcome(lambda: jsontools.apply_acl_filters(d, fl))
+    w.check("apply_acl_filters")
+    return {"r": r, "mutated": w.mutated}
 
 
-def via_apply_patch(doc, ops):
+def apply_bytes(content, patch_bytes, w=None):
+    """jsontools.apply_patch on the serialised forms; the two byte strings are watched like every other input"""
+    c0, p0 = bytes(content), bytes(patch_bytes)
+    r = jsontools.apply_patch(content, patch_bytes)
+    if w is not None:
+        if content != c0:
+            w.mutated.append(["apply_patch", "content"])
+        if patch_bytes != p0:
+            w.mutated.append(["apply_patch", "patch"])
+    return r
+
+
+def via_apply_patch(doc, ops, w=None):
     content = json.dumps(doc).encode()
     patch_bytes = json.dumps(ops).encode()
-    return json.loads(jsontools.apply_patch(content, patch_bytes))
+    return json.loads(apply_bytes(content, patch_bytes, w))
 
 
 def patch(c):
@@ -45,19 +106,60 @@ def patch(c):
     old, new = c["old"], c["new"]
     # the third-party diff (the Section variable D of the Coq development), unsorted
     lib = outcome(lambda: list(jsonpatch.make_patch(copy.deepcopy(old), copy.deepcopy(new)).patch))
-    p = outcome(lambda: jsontools.make_patch(copy.deepcopy(old), copy.deepcopy(new)))
+    w = Watch()
+    a_old, a_new = w.add("old", copy.deepcopy(old), old), w.add("new", copy.deepcopy(new), new)
+    p = outcome(lambda: jsontools.make_patch(a_old, a_new))
+    w.check("make_patch")
     out = {"lib": lib, "patch": p}
     if "ok" in p:
-        out["applied"] = outcome(lambda: via_apply_patch(old, p["ok"]))
+        out["applied"] = outcome(lambda: via_apply_patch(old, p["ok"], w))
     else:
         out["applied"] = {"exc": "skipped"}
+    out["mutated"] = w.mutated
     return out
 
 
 def apply_(c):
-    return {"r": outcome(lambda: via_apply_patch(c["doc"], c["ops"]))}
+    w = Watch()
+    return {"r": outcome(lambda: via_apply_patch(c["doc"], c["ops"], w)), "mutated": w.mutated}
 
 
-KINDS = {"frag": frag, "filter": filt, "patch": patch, "apply": apply_}
+def session(c):
+    """one old object through apply_json_fragment (chained) -> make_patch -> apply_patch on the device's bytes"""
+    import jsonpatch
+    old0, steps = c["old"], c["steps"]
+    content = json.dumps(old0).encode()                 # the device holds the ORIGINAL old document
+    w = Watch()
+    old_obj = w.add("old", copy.deepcopy(old0), old0)
+    doc, docs, failed = old_obj, [], False
+    for k, (f, acl) in enumerate(steps):
+        a_f, a_acl = w.add(f"fragment[{k}]", copy.deepcopy(f), f), w.add(f"acl[{k}]", list(acl), acl)
+        cur = doc
+        r = outcome(lambda: jsontools.apply_json_fragment(cur, a_f, a_acl))
+        w.check("apply_json_fragment")
+        docs.append(copy.deepcopy(r))
+        if "ok" not in r:
+            failed = True
+            break
+        doc = w.add(f"result[{k}]", r["ok"])
+    out = {"docs": docs}
+    if failed:
+        out.update({"lib": {"exc": "skipped"}, "patch": {"exc": "skipped"}, "applied": {"exc": "skipped"}})
+    else:
+        new = copy.deepcopy(doc)                        # the value the chain returned
+        out["lib"] = outcome(lambda: list(jsonpatch.make_patch(copy.deepcopy(old0), copy.deepcopy(new)).patch))
+        p = outcome(lambda: jsontools.make_patch(old_obj, doc))
+        w.check("make_patch")
+        out["patch"] = copy.deepcopy(p)
+        if "ok" in p:
+            out["applied"] = outcome(lambda: json.loads(apply_bytes(content, json.dumps(p["ok"]).encode(), w)))
+        else:
+            out["applied"] = {"exc": "skipped"}
+    out["old_after"] = outcome(lambda: old_obj)
+    out["mutated"] = w.mutated
+    return out
+
+
+KINDS = {"frag": frag, "filter": filt, "patch": patch, "apply": apply_, "session": session}
 
 main(lambda cases: [KINDS[c["kind"]](c) for c in cases])
